@@ -25,7 +25,10 @@ macro_rules! with_len {
 #[allow(deprecated)]
 pub const ALL: &[Entry] = &[
     // certificate transparency
-    simple!(parse_ct_signed_certificate_timestamp),
+    ("parse_ct_signed_certificate_timestamp", |i, _| match parse_ct_signed_certificate_timestamp(i) {
+        Ok((_, s)) => crate::guard::unmetered(|| format!("{:?} {} {:?}", s, s.version, s.signature.alg.as_ref().map(|a| format!("{} {} {}", a, a.hash, a.sign))).len()),
+        Err(e) => dbg(&e),
+    }),
     simple!(parse_ct_signed_certificate_timestamp_list),
     // dtls
     ("parse_dtls_record_header", |i, _| match parse_dtls_record_header(i) {
@@ -47,11 +50,20 @@ pub const ALL: &[Entry] = &[
     simple!(parse_dtls_plaintext_records),
     // dh / ec
     simple!(parse_dh_params),
-    simple!(parse_named_groups),
-    simple!(parse_ec_parameters),
+    ("parse_named_groups", |i, _| match parse_named_groups(i) {
+        Ok((_, g)) => crate::guard::unmetered(|| g.iter().map(|x| format!("{} {:?} {:?}", x, x, x.key_bits()).len()).sum::<usize>()),
+        Err(e) => dbg(&e),
+    }),
+    ("parse_ec_parameters", |i, _| match parse_ec_parameters(i) {
+        Ok((_, p)) => crate::guard::unmetered(|| format!("{:?} {}", p, p.curve_type).len()),
+        Err(e) => dbg(&e),
+    }),
     simple!(parse_ecdh_params),
     // extensions
-    simple!(parse_tls_extension_sni_hostname),
+    ("parse_tls_extension_sni_hostname", |i, _| match parse_tls_extension_sni_hostname(i) {
+        Ok((_, (t, n))) => crate::guard::unmetered(|| format!("{} {:?} {}", t, t, n.len()).len()),
+        Err(e) => dbg(&e),
+    }),
     simple!(parse_tls_extension_sni_content),
     simple!(parse_tls_extension_sni),
     simple!(parse_tls_extension_max_fragment_length_content),
@@ -170,7 +182,10 @@ pub const ALL: &[Entry] = &[
     simple!(tls_parser_many),
     // signatures
     simple!(parse_digitally_signed_old),
-    simple!(parse_digitally_signed),
+    ("parse_digitally_signed", |i, _| match parse_digitally_signed(i) {
+        Ok((_, d)) => crate::guard::unmetered(|| format!("{:?} {:?}", d, d.alg.as_ref().map(|a| format!("{} {} {}", a, a.hash, a.sign))).len()),
+        Err(e) => dbg(&e),
+    }),
     ("parse_content_and_signature", |i, _| {
         let mut t = 0;
         for ext in [false, true] {
